@@ -653,7 +653,7 @@ func (c *c05) judgeGoal(cx *Ctx, m *c05Meta, it *Item, o *run.Outcome) Verdict {
 		for _, id := range m.Shapes {
 			endless = endless || strings.Contains(id, "repeat")
 		}
-		if m.Family == "goal-matrix" && !endless && m.Size <= c05TinyInput {
+		if (m.Family == "goal-matrix" || m.Family == "goal-corner-finite") && !endless && m.Size <= c05TinyInput {
 			v.Status = Violated
 			v.Class = "no_return_on_finite_arguments"
 			v.Msg = fmt.Sprintf("%s did not return: still running after %d trampoline steps (%d answers before); none of its arguments is a goal that runs forever", what, r.Steps, r.Answers)
